@@ -242,8 +242,10 @@ pub enum VDesc {
     /// Fq12: "zero" | "one" | "qm1" (every coefficient q-1) | "sparse:<i>" | "seed:<n>"
     Fq12(String),
     /// point [a]*generator with a given as 32-byte big-endian hex (a = 0: identity);
-    /// `z`: Z-randomiser for the projective container (0 = normalised); `neg`: negate
-    Pt { a: String, z: u64, neg: bool },
+    /// `z`: Z-randomiser for the projective container (0 = normalised); `neg`: negate;
+    /// `via`: 0 = the point itself; 1 = the identity obtained by arithmetic as P + (-P) (a projective
+    /// identity with left-over X, Y); 2 = the identity obtained as [r]P
+    Pt { a: String, z: u64, neg: bool, via: u8 },
 }
 
 impl VDesc {
@@ -251,7 +253,7 @@ impl VDesc {
         match self {
             VDesc::Fr(h) => J::obj().set("fr", J::s(h)),
             VDesc::Fq12(k) => J::obj().set("fq12", J::s(k)),
-            VDesc::Pt { a, z, neg } => J::obj().set("a", J::s(a)).set("z", J::Int(*z as i64)).set("neg", J::Bool(*neg)),
+            VDesc::Pt { a, z, neg, via } => J::obj().set("a", J::s(a)).set("z", J::Int(*z as i64)).set("neg", J::Bool(*neg)).set("via", J::Int(*via as i64)),
         }
     }
     pub fn from_json(j: &J) -> Result<VDesc, String> {
@@ -265,6 +267,7 @@ impl VDesc {
             a: j.str_of("a")?.to_string(),
             z: j.get("z").and_then(|v| v.as_i64()).unwrap_or(0) as u64,
             neg: j.get("neg").and_then(|v| v.as_bool()).unwrap_or(false),
+            via: j.get("via").and_then(|v| v.as_i64()).unwrap_or(0) as u8,
         })
     }
 
@@ -305,7 +308,7 @@ impl VDesc {
                 };
                 Ok(Value::Fq12(v))
             }
-            (VDesc::Pt { a, z, neg }, t) if t.is_point() => {
+            (VDesc::Pt { a, z, neg, via }, t) if t.is_point() => {
                 let b = unhex(a)?;
                 if b.len() != 32 {
                     return Err("scalar hex length".into());
@@ -316,6 +319,18 @@ impl VDesc {
                     p.mul_assign(k);
                     if *neg {
                         p.negate();
+                    }
+                    if *via != 0 {
+                        // an identity produced by arithmetic, not by zero()
+                        let mut q = p;
+                        if *via == 1 {
+                            let mut m = p;
+                            m.negate();
+                            q.add_assign(&m);
+                        } else {
+                            q.mul_assign(Fr::char());
+                        }
+                        return Ok(if t == Ty::G1A { Value::G1A(q.into_affine()) } else { Value::G1(q) });
                     }
                     let aff = p.into_affine();
                     if t == Ty::G1A {
@@ -343,6 +358,17 @@ impl VDesc {
                     p.mul_assign(k);
                     if *neg {
                         p.negate();
+                    }
+                    if *via != 0 {
+                        let mut q = p;
+                        if *via == 1 {
+                            let mut m = p;
+                            m.negate();
+                            q.add_assign(&m);
+                        } else {
+                            q.mul_assign(Fr::char());
+                        }
+                        return Ok(if t == Ty::G2A { Value::G2A(q.into_affine()) } else { Value::G2(q) });
                     }
                     let aff = p.into_affine();
                     if t == Ty::G2A {
